@@ -7,21 +7,46 @@ around 100 and 2048, estimates that differ from the true length in both directio
 precondition (no zero divisor, no epoch on an empty sample) and that the output bound is <= requested.  The real builder
 is run on the same grid x source kinds (seeded RNG, watchdog); every run is a row judged by TLC: no panic, finished,
 length <= requested and <= the structural upper bound of the specification.  Estimates beyond 32 bits are run against the
-documented promise only.
+documented promise only.  ReservoirFill.tla is the sampling loop as a state machine over readers that cut their answers
+(scripts of short answers): TLC checks termination as a liveness property (and finds the endless loop in the shrink-only
+variant); every (length, script) pair it explored is replayed against the real builder through a scripted reader, and the
+grid is also run with readers that answer 1 / 7 / 100 bytes at a time or start with a short answer.
 """
-import json, re
+import json, re, os
 from ..common import *
 from .c12 import rows_run
 
 
 def check(ctx):
     build_harness()
+    q = ctx.quick
+    # ---- the sampling loop as a state machine: termination for every source length and every way of cutting the answers ----
+    consts = {"Sample": 16, "MaxT": 40 if q else 60, "Chunks": "{1, 7, 10, 16, 17}" if q else "{1, 5, 7, 10, 15, 16, 17, 33}", "MaxScript": 3, "Dev_Truncate": "FALSE"}
+    mod = ctx.path("MC_ReservoirFill.tla")
+    with open(mod, "w") as f:
+        f.write("---- MODULE MC_ReservoirFill ----\nEXTENDS ReservoirFill\n====\n")
+    cfg = ctx.path("MC_ReservoirFill.cfg")
+    write_cfg(cfg, spec="Spec", constants=consts, invariants=["TypeOK", "Conservation", "SampledAll"], properties=["Terminates"])
+    res = tlc(ctx, mod, cfg, workers=4, name="MC_ReservoirFill", timeout=3000)
+    tlc_must_pass(ctx, res, "ReservoirFill")
+    fill_cases = ctx.path("fill_cases.ndjson")
+    kept = ctx.path("fill_cases_kept.ndjson")
+    os.replace(fill_cases, kept)
+    cfg2 = ctx.path("MC_ReservoirFill_dev.cfg")
+    write_cfg(cfg2, spec="Spec", constants=dict(consts, MaxT=20, Dev_Truncate="TRUE"), invariants=["TypeOK"], properties=["Terminates"])
+    r2 = tlc(ctx, mod, cfg2, workers=2, name="MC_ReservoirFill_dev", timeout=3000)
+    if "Temporal property Terminates was violated" not in r2.out and "Temporal properties were violated" not in r2.out:
+        raise ToolError("self-test failed: the shrink-only variant of the sampling loop is not found to loop for ever")
+    ctx.states += res.distinct
+    ctx.transitions += res.generated
+    ctx.cov["reservoir_fill_model"] = {"constants": consts, "distinct_states": res.distinct, "transitions": res.generated,
+                                       "liveness": "Terminates holds under WF(Read); violated by the shrink-only variant (self-test)"}
     rows = ctx.path("dict_rows.ndjson")
     rep = ctx.path("c20exec.json")
-    r = vh(ctx, ["c20exec", ctx.seed, ctx.tier, rows, rep], timeout=7200, check=False)
+    r = vh(ctx, ["c20exec", ctx.seed, ctx.tier, rows, rep, kept], timeout=7200, check=False)
     if r.returncode == 3:
         m = re.search(r'\{"hang": "(.*?)"', r.stdout or "")
-        ctx.violation("the dictionary builder does not terminate within 60 s for %s" % (m.group(1) if m else "?"), {"case": m.group(1) if m else None}, tag="hang")
+        ctx.violation("the dictionary builder makes no progress for 30 s (does not terminate) for %s" % (m.group(1) if m else "?"), {"case": m.group(1) if m else None}, tag="hang")
         return ctx.finish("model_checking")
     if r.returncode != 0:
         raise ToolError("c20exec failed: " + (r.stdout or "")[-1500:])
@@ -32,7 +57,10 @@ def check(ctx):
         if not s["ok"]:
             ctx.violation("estimate %d (true length %d, requested %d): %s" % (s["E"], s["T"], s["D"], "panic: " + s["message"] if s["panic"] else "%d bytes written" % s["len"]), s, tag="big")
     n, bad, first = rows_run(ctx, "DictBuilder", rows, "DictBuilderRows")
-    ctx.cov["grid"] = {"runs": rj["runs"], "rows_checked": n, "bad": bad, "panics": rj["panics"], "estimates_beyond_32_bits": len(rj["specials"])}
+    dm = re.search(r'<<\s*"DRIFT",\s*(\d+)\s*>>', ctx.last_rows_out)
+    if dm and int(dm.group(1)):
+        ctx.notes.append("drift (not a violation): %s runs stay within the requested size but exceed the bound the as-built structure implies" % dm.group(1))
+    ctx.cov["grid"] = {"fill_cases_replayed": rj["fill_cases"], "drifted_rows": int(dm.group(1)) if dm else -1, "runs": rj["runs"], "rows_checked": n, "bad": bad, "panics": rj["panics"], "estimates_beyond_32_bits": len(rj["specials"])}
     if bad and not rj["first"]:
         ctx.violation("%d of %d runs of the dictionary builder break the specification, first: %s" % (bad, n, first), {"rows": rows, "first": first}, tag="rows")
     elif bad:
